@@ -219,6 +219,12 @@ def mk_field(t, idx, name, adt=None):
         if idx == 0:
             return mk_bin(base, t[2], t[3])
         return ("ovf", base, t[2], t[3])
+    if t[0] == "variant" and t[1][0] == "phi":
+        # payload of a variant of a value built in several places (`match Kind::new(n) { Kind::B(x) => .. }`): the field of
+        # the alternatives that are this variant
+        alts = [x for x in t[1][1] if x[0] == "agg" and x[1].endswith("::" + str(t[2])) and idx < len(x[2])]
+        if alts and all(x[0] == "agg" for x in t[1][1]):
+            return mk_phi([x[2][idx] for x in alts])
     if t[0] == "variant":
         # payload of an enum variant
         inner = t[1]
